@@ -5,7 +5,8 @@
 //                 per seed either `_slots` is pre-reserved (4 slots per block) or it starts EMPTY with
 //                 2 slots per block so that ensure() growth races with the scan (slots are then named
 //                 through a VRT resolver that walks the current block table)
-//   mode relock   sequential probe: Accessor released while a region is open, slot reused (see report)
+//   mode relock   regression for fix 6566b0b: an Accessor released INSIDE a region closes the region; the slot
+//                 is reused by the next accessor; sequential, lock-step replayed like mode acc
 //   With VRT_MEM=view in the environment the same programs run under VRT's stale-read simulation
 //   (oracle only, no lock-step replay).
 // One run = one seeded program on one seeded schedule:
@@ -73,6 +74,9 @@ struct World {
   std::vector<Retired> retired;         // written by the writer before the release store on chan_retire
   struct Xfer { Accessor acc; uint64_t id; int depth; bool used; } xfer[4];
   uint64_t last_tick = 0;
+  // the slot may legitimately publish again right after a release if another thread re-created an
+  // accessor on it and locked; the post-release check is therefore made on the nesting counter
+  bool reused_since(size_t idx);
 };
 
 static Epoch::Slot& slot_of(World& w, size_t idx) {
@@ -81,6 +85,8 @@ static Epoch::Slot& slot_of(World& w, size_t idx) {
   size_t bs = w.epoch._slots._meta.block_size();
   return table->blocks[idx / bs][idx % bs];
 }
+
+bool World::reused_since(size_t idx) { return slot_of(*this, idx).lock_times != 0; }
 
 // names for slots created during the run: walk the current block table (plain reads)
 static World* g_world = nullptr;
@@ -157,6 +163,15 @@ static void reader_acc(World& w, uint64_t seed, int me) {
       continue;   // acc is empty now; next round creates a new one
     }
     deref(w, id, "second");
+    if (r.below(8) == 0) {
+      // release (or destroy) the accessor inside the region: unregister_accessor closes the region
+      vrt_event("call release %zu", idx);
+      acc.release();
+      vrt_event("ret release");
+      uint64_t after = peek(slot_of(w, idx).version);
+      if (after != UINT64_MAX && !w.reused_since(idx)) vrt_event("ORACLE held-back slot %zu still publishes %lu after release inside a region", idx, after);
+      continue;
+    }
     for (int d = depth; d > 0; --d) do_unlock(w, &acc, idx, d);
     if (r.below(2)) {
       vrt_event("call release %zu", idx);
@@ -337,34 +352,67 @@ static void run(const std::string& mode, uint64_t seed) {
   g_world = nullptr;
 }
 
-// Accessor released while its region is open, slot reused by the next accessor (client misuse?
-// BasicLockable pairing says unlock first) — prints what the real code does.
-static void run_relock() {
-  Epoch epoch;
-  auto a = epoch.create_accessor();
-  a.lock();
-  a.release();                              // region still open
-  uint64_t held = epoch.low_water_mark();
-  auto b = epoch.create_accessor();         // reuses slot 0
-  epoch.tick();
-  epoch.tick();
-  b.lock();                                 // lock_times 1 -> 2: nothing published
-  uint64_t during = epoch.low_water_mark();
-  b.unlock();
-  uint64_t after = epoch.low_water_mark();
-  printf("relock: after release-while-locked lwm=%lu; new accessor on the same slot locked at epoch 2: lwm=%lu; after its unlock lwm=%lu (UINT64_MAX=%lu)\n",
-         held, during, after, (uint64_t)UINT64_MAX);
+// Regression for fix 6566b0b: an Accessor released while its region is open must not hold the mark back,
+// and the next accessor reusing the slot must publish when it locks.
+static void run_relock(uint64_t seed) {
+  auto wp = std::make_unique<World>();
+  World& w = *wp;
+  size_t bs = 4;
+  w.epoch._slots = ConcurrentVector<Epoch::Slot>(bs);
+  w.epoch._slots.reserve(4);
+  name_all(w, 4);
+  g_world = &w;
+  vrt_set_resolver(resolve_slot);
+  uint64_t tbl0 = (uint64_t)(uintptr_t)*reinterpret_cast<void**>(&w.epoch._slots._block_table);
+  vrt_begin(seed);
+  printf("RUN %lu mode=acc bs=%zu n0=0 nb0=1 tbl0=%lu relock\n", (unsigned long)seed, bs, (unsigned long)tbl0);
+  auto lwm = [&](uint64_t expect, const char* what) {
+    vrt_event("call lwm");
+    uint64_t m = w.epoch.low_water_mark();
+    vrt_event("ret lwm %lu", m);
+    if (m != expect) vrt_event("ORACLE held-back low_water_mark is %lu, expected %lu (%s)", m, expect, what);
+  };
+  vrt_event("call create");
+  auto a = w.epoch.create_accessor();
+  vrt_event("ret create %zu", a._index);
+  size_t idx = a._index;
+  do_lock(w, &a, idx, 0);
+  do_lock(w, &a, idx, 1);
+  lwm(0, "region open");
+  vrt_event("call release %zu", idx);
+  a.release();                               // inside the (nested) region
+  vrt_event("ret release");
+  lwm(UINT64_MAX, "after release inside a region");
+  vrt_event("call create");
+  auto b = w.epoch.create_accessor();        // reuses the slot
+  vrt_event("ret create %zu", b._index);
+  if (b._index != idx) vrt_event("ORACLE relock slot %zu not reused (got %zu)", idx, b._index);
+  for (int k = 0; k < 2; ++k) {
+    vrt_event("call tick");
+    uint64_t e = w.epoch.tick();
+    vrt_event("ret tick %lu", e);
+  }
+  do_lock(w, &b, b._index, 0);
+  lwm(2, "reused slot locked at epoch 2");
+  do_unlock(w, &b, b._index, 1);
+  lwm(UINT64_MAX, "reused slot unlocked");
+  vrt_event("call release %zu", b._index);
+  b.release();
+  vrt_event("ret release");
+  vrt_event("stats steps %lu switches %lu stale %lu", vrt_steps(), vrt_switches(), vrt_stale_reads());
+  vrt_end();
+  vrt_dump(stdout);
+  vrt_set_resolver(nullptr);
+  g_world = nullptr;
 }
 
 int main(int argc, char** argv) {
   std::string mode = argc > 1 ? argv[1] : "acc";
   uint64_t seed0 = argc > 2 ? strtoull(argv[2], 0, 10) : 1;
   int nruns = argc > 3 ? atoi(argv[3]) : 1;
-  if (mode == "relock") {
-    run_relock();
-    return 0;
+  if (mode != "acc" && mode != "tls" && mode != "relock") return 2;
+  for (int i = 0; i < nruns; ++i) {
+    if (mode == "relock") run_relock(seed0 + i); else run(mode, seed0 + i);
   }
-  if (mode != "acc" && mode != "tls") return 2;
-  for (int i = 0; i < nruns; ++i) run(mode, seed0 + i);
   return 0;
 }
